@@ -629,7 +629,12 @@ def rule_walk(ctx, prop):
         db = disp[0]
         contains = [(b, t) for b, t in f.calls() if re.search(r"HashSet::<T, S, A>::contains$", callee(t))]
         inserts = [(b, t) for b, t in f.calls() if re.search(r"HashSet::<T, S, A>::insert$", callee(t))]
-        if rep.anchor(len(contains) == 1 and len(inserts) == 1, "seen_files.contains / insert", cfg):
+        if len(contains) == 0 or len(inserts) == 0:
+            rep.inst("stylua::format dispatch-dominated-by-not-seen-and-insert", None, cfg, ok=False)
+            rep.violation("stylua::format dedup-not-enforced",
+                          "the format_file dispatch is not preceded by `seen_files.contains(path)` / `seen_files.insert(path)`: "
+                          "a file reachable through several arguments would be processed twice", f.loc(disp[1]["sp"]), cfg)
+        elif rep.anchor(len(contains) == 1 and len(inserts) == 1, "seen_files.contains / insert", cfg):
             cb, ct = contains[0]
             ib, it = inserts[0]
             e = bool_edge(f, cb)
